@@ -189,6 +189,18 @@ func check(c Case, st *rig.Stats) error {
 	sub("pv", pv)
 	grp.Add(nil, s.R.Router)
 
+	// every pool pattern's own witness (live or not) must be servable without a fault after the history
+	for _, p := range c.Pool {
+		if pp := s.Parsed(p); pp != nil {
+			if w, _, ok := pp.Witness(0); ok {
+				for _, m := range []string{"GET", "OPTIONS", "BOGUS"} {
+					if o := s.Get(m, w); o.Panicked {
+						return rig.Violf("panic:Router.ServeHTTP", "%s %s (witness of pool pattern %q) panicked after the history: %v; handler handed over: %q nil=%v; live %v", m, short(w), p, o.PanicVal, o.HandlerID, o.HandlerNil, s.M.Live())
+					}
+				}
+			}
+		}
+	}
 	for _, q := range c.Reqs {
 		hdr := map[string][]string{}
 		if q.Accept != "" {
